@@ -20,6 +20,8 @@ RULE = (
     "moves; non-trivial = moves with from != to."
     " The C++ runtime is explored for all four control x calibration instantiations in both tiers (quick: two of them on a reduced step / start-time menu)."
     " The Python stand-in carries a real formak Config (for three step sizes with every field away from its default)."
+    " Long moves: for max steps of 1/3 us and 1/30000 s (not whole numbers of nanoseconds) ticks that travel 1200, 2500.5 and 30011.25 "
+    "steps (thorough: up to 300000.75) away from the start time and back, forward and backward, from both start times; same invariant."
 )
 ASSUMPTIONS = [
     "times of moderate magnitude (|t| <= 1000 + 8h) so that 1e-9 s exceeds the spacing of doubles",
@@ -30,6 +32,9 @@ HS_QUICK = [0.1, 0.05, 0.25]
 HS_ALL = [0.1, 0.05, 0.01, 0.25, 0.3, 1.0, 1.0 / 30.0]
 T0_QUICK = [0.0, 10.0]
 T0_ALL = [0.0, 10.0, -3.0, 1000.0]
+LONG_HS = [1e-6 / 3.0, 1.0 / 30000.0]
+LONG_NS = [1200, 2500.5, 30011.25]
+LONG_NS_THOROUGH = [100003, 300000.75, 999.999]
 RS = [0.0, 2.0 ** -30, 0.5, 1 - 2.0 ** -20, 1.0, 1 + 2.0 ** -20, 2.0, 2.5, 3.0, 7.3]
 TOL = 1e-9
 
@@ -140,6 +145,12 @@ def cases(tier, seed):
             yield {"runtime": "py", "h": h, "t0": t0}
     for h in HS_ALL[:3]:
         yield {"runtime": "py", "h": h, "t0": T0_ALL[1], "config": "all-non-default"}
+    # long moves with a maximum step that is not a whole number of nanoseconds (1/3 us, 1/30000 s): thousands of whole steps, so a
+    # step count taken from rounded or integer-unit times drifts by a whole step (wave-11 seed C10k) - the grid above never
+    # asks for more than 8 steps
+    for h in LONG_HS:
+        for t0 in T0_QUICK:
+            yield {"runtime": "py", "h": h, "t0": t0, "long": LONG_NS if tier == "quick" else LONG_NS + LONG_NS_THOROUGH}
     from fv.props import c10_cpp
     yield from c10_cpp.cases(tier, seed)
 
@@ -157,6 +168,22 @@ def eval_case(case):
         if new != a:
             fails.append({"key": "held-time:py", "what": f"held time after tick is {new!r}, last reading at {a!r}"})
         return {"n": 1, "fails": fails}
+    if "long" in case:
+        fails, n, sigs = [], 0, []
+        for N in case["long"]:
+            for sgn in (1.0, -1.0):
+                a = t0 + sgn * N * h
+                s1, s2, new = py_tick_moves(h, t0, a, t0)  # there and back again in one tick
+                n += 2
+                sigs += [f"py:{h}:{t0!r}:{a!r}", f"py:{h}:{a!r}:{t0!r}"]
+                bad = check_move(t0, a, s1, h) + check_move(a, t0, s2, h)
+                if new != a:
+                    bad.append(("held-time", f"held time after tick is {new!r}, last reading at {a!r}"))
+                for k, w in bad:
+                    if not any(f["key"] == f"{k}:py-long" for f in fails):
+                        fails.append({"key": f"{k}:py-long", "what": f"py h={h} ({N} steps): {w}", "replay_case": dict(case, tick=[t0, a, t0])})
+        return {"n": n, "fails": fails, "sigs": sigs, "counters": {"transitions": n // 2, "moves_checked": n},
+                "outcomes": ["py:long-move"], "sample": {"runtime": "py", "h": h, "t0": t0, "long_moves_in_steps": case["long"]}}
     g = grid(h, t0)
     evs = [(a, b) for a in g for b in g]
     outcomes = set()
@@ -201,4 +228,4 @@ def finalize(agg, tier):
 
 _KINDS = ["forward", "backward", "zero", "exact-multiple", "non-multiple", "multi-step"]
 REQUIRED_OUTCOMES = ([f"{o}:h{h}" for o in _KINDS for h in HS_QUICK] + [f"py:{o}" for o in _KINDS]
-                     + [f"cpp:{o}" for o in _KINDS] + ["cpp-combo0", "cpp-combo3"])
+                     + [f"cpp:{o}" for o in _KINDS] + ["cpp-combo0", "cpp-combo3", "py:long-move"])
